@@ -1132,7 +1132,7 @@ pub fn generate(seed: u64, thorough: bool, faults: bool) -> GenOut {
     }
     if config == "models" && work.chance(1, 2) {
         // a prompt note so that '+' completions and the generate command have something to work on
-        let d = Doc { front: None, blocks: vec![gen::Block::Heading { level: 1, inl: vec![gen::Inline::Word("prompt".into())], setext: false }], trailing_newline: true };
+        let d = Doc { front: None, blocks: vec![gen::Block::Heading { level: 1, inl: vec![gen::Inline::Word("prompt".into())], setext: false }], trailing_newline: true, bom: false };
         texts.insert("prompt-a".into(), gen::render("prompt-a", &d));
         docs.insert("prompt-a".into(), d);
     }
